@@ -2,6 +2,7 @@ package c07
 
 import (
 	"context"
+	"database/sql"
 	"fmt"
 	"io"
 	"log"
@@ -27,7 +28,7 @@ import (
 )
 
 var rec = ev.New("C07",
-	"histories of 6-30 actions over a LiveDB on the model database with the real Binlog.RunPollLoop fed in process: start live query (Query with 0-3 filter columns in several Go representations, NULLs, pointer and tagged columns), insert/update/delete/upsert through sqlgen, deliver n queued change events (delivery lags commits arbitrarily), a write executed inside a live query's SELECT, ALTER TABLE ADD COLUMN (older row images then have a stale column count), a corrupted row image (type mismatch), stop query; at the end everything is delivered and each live query must hold exactly the rows a fresh query returns; non-trivial = a committed write changed the result of a live query registered before the write was delivered; distinct = hash of the history",
+	"histories of 6-30 actions over a LiveDB on the model database with the real Binlog.RunPollLoop fed in process: start live query (Query / FullScanQuery / QueryRow / hand-declared AddDependency with 0-3 filter columns in several Go representations, NULLs, pointer and tagged columns; nil, empty or ORDER BY+LIMIT options; optionally a second query of the same shape in the same computation), insert/update/delete/upsert through sqlgen, deliver n queued change events (delivery lags commits arbitrarily), a write executed inside a live query's SELECT, ALTER TABLE ADD COLUMN (older row images then have a stale column count), a corrupted row image (type mismatch), stop query; at the end everything is delivered and each live query must hold exactly the rows a fresh query returns; non-trivial = a committed write changed the result of a live query registered before the write was delivered; distinct = hash of the history",
 	"the model database defines 'the rows the database returns'", "all queued events are eventually delivered", "times are whole seconds (the vendored binlog decoder drops DATETIME fractions)")
 
 var schema = sw.NewSchema()
@@ -52,6 +53,8 @@ type action struct {
 	Descr   string `json:"descr"`
 	filter  sqlgen.Filter
 	filter2 sqlgen.Filter // a second live query of the same shape made by the same computation
+	entry   string        // Query (""), FullScanQuery, QueryRow, AddDependency (by hand + plain read)
+	optKind int           // 0 nil options, 1 empty options, 2 ORDER BY primary key LIMIT 2
 	batched bool
 	wkind   string // insert update delete upsert
 	row     interface{}
@@ -63,6 +66,8 @@ type liveQuery struct {
 	filter          sqlgen.Filter
 	filter2         sqlgen.Filter
 	rows2           []string
+	entry           string
+	optKind         int
 	descr           string
 	rr              *reactive.Rerunner
 	mu              sync.Mutex
@@ -81,6 +86,60 @@ var filterCols = map[string][]string{
 
 // two adjacent text columns per table (for the twin live queries)
 var twinCols = map[string][2]string{"row_a": {"n", "s"}, "row_b": {"p_n", "p_s"}, "row_c": {"key", "shard"}}
+
+// querier is what *sqlgen.DB and *livesql.LiveDB have in common.
+type querier interface {
+	Query(ctx context.Context, result interface{}, filter sqlgen.Filter, options *sqlgen.SelectOptions) error
+	FullScanQuery(ctx context.Context, result interface{}, filter sqlgen.Filter, options *sqlgen.SelectOptions) error
+	QueryRow(ctx context.Context, result interface{}, filter sqlgen.Filter, options *sqlgen.SelectOptions) error
+}
+
+// runQ asks q through the chosen entry point; QueryRow's "none" / "more than one" outcomes are
+// results, not failures.
+func runQ(ctx context.Context, q querier, table string, entry string, optKind int, f sqlgen.Filter) ([]string, error) {
+	typ := sw.Types[table]
+	var opts *sqlgen.SelectOptions
+	switch optKind {
+	case 1:
+		opts = &sqlgen.SelectOptions{}
+	case 2:
+		opts = &sqlgen.SelectOptions{OrderBy: map[string]string{"row_a": "id", "row_b": "id", "row_c": "key"}[table], Limit: 2}
+	}
+	if entry == "QueryRow" {
+		res := reflect.New(reflect.PtrTo(typ))
+		err := q.QueryRow(ctx, res.Interface(), f, opts)
+		switch {
+		case err == nil:
+			one := reflect.MakeSlice(reflect.SliceOf(reflect.PtrTo(typ)), 0, 1)
+			return describeRows(reflect.Append(one, res.Elem())), nil
+		case err == sql.ErrNoRows:
+			return []string{"<no rows>"}, nil
+		case strings.Contains(err.Error(), "expected no more than 1 result"):
+			return []string{"<more than one row>"}, nil
+		}
+		return nil, err
+	}
+	res := reflect.New(reflect.SliceOf(reflect.PtrTo(typ)))
+	var err error
+	if entry == "AddDependency" {
+		// the dependency is declared by hand and the rows are read without the live layer
+		if ldb, ok := q.(*livesql.LiveDB); ok {
+			if err := ldb.AddDependency(ctx, livesql.QueryDependency{Table: table, Filter: f}); err != nil {
+				return nil, err
+			}
+			q = ldb.DB
+		}
+		err = q.Query(ctx, res.Interface(), f, opts)
+	} else if entry == "FullScanQuery" {
+		err = q.FullScanQuery(ctx, res.Interface(), f, opts)
+	} else {
+		err = q.Query(ctx, res.Interface(), f, opts)
+	}
+	if err != nil {
+		return nil, err
+	}
+	return describeRows(res.Elem()), nil
+}
 
 func variant(t *rapid.T, v reflect.Value) interface{} {
 	if v.Kind() == reflect.Ptr {
@@ -150,7 +209,12 @@ func gen(t *rapid.T) world {
 			}
 			sort.Strings(parts)
 			a.batched = rapid.Bool().Draw(t, "batched")
+			a.entry = rapid.SampledFrom([]string{"", "", "", "", "FullScanQuery", "QueryRow", "AddDependency"}).Draw(t, "entry")
+			a.optKind = rapid.SampledFrom([]int{0, 0, 0, 1, 2}).Draw(t, "optkind")
 			a.Descr = "live{" + strings.Join(parts, ",") + "}"
+			if a.entry != "" || a.optKind != 0 {
+				a.Descr = fmt.Sprintf("%s[opts%d]%s", a.entry, a.optKind, a.Descr)
+			}
 			if len(cols) > 0 && rapid.IntRange(0, 2).Draw(t, "second") == 0 {
 				// the same computation asks a second question of the same shape (same columns,
 				// other values)
@@ -255,7 +319,6 @@ func check(w world) (nt bool, labels []string, sig string, err error) {
 	go func() { loopDone <- bl.RunPollLoop() }()
 	defer func() { bl.Stop(); <-loopDone }()
 	ctx := context.Background()
-	typ := sw.Types[w.table]
 	def := eng.Def(w.table)
 
 	var queue []fakebinlog.Queued
@@ -359,13 +422,12 @@ func check(w world) (nt bool, labels []string, sig string, err error) {
 		qmu.Lock()
 		startCommits := commits
 		qmu.Unlock()
-		lq := &liveQuery{filter: a.filter, filter2: a.filter2, descr: a.Descr, startedAtCommit: startCommits}
+		lq := &liveQuery{filter: a.filter, filter2: a.filter2, entry: a.entry, optKind: a.optKind, descr: a.Descr, startedAtCommit: startCommits}
 		lq.rr = reactive.NewRerunner(ctx, func(ctx context.Context) (interface{}, error) {
 			if a.batched {
 				ctx = batch.WithBatching(ctx)
 			}
-			res := reflect.New(reflect.SliceOf(reflect.PtrTo(typ)))
-			err := ldb.Query(ctx, res.Interface(), lq.filter, nil)
+			rows, err := runQ(ctx, ldb, w.table, lq.entry, lq.optKind, lq.filter)
 			lq.mu.Lock()
 			defer lq.mu.Unlock()
 			lq.runs++
@@ -375,24 +437,18 @@ func check(w world) (nt bool, labels []string, sig string, err error) {
 			}
 			var rows2 []string
 			if lq.filter2 != nil {
-				res2 := reflect.New(reflect.SliceOf(reflect.PtrTo(typ)))
-				if err := ldb.Query(ctx, res2.Interface(), lq.filter2, nil); err != nil {
+				if rows2, err = runQ(ctx, ldb, w.table, lq.entry, lq.optKind, lq.filter2); err != nil {
 					lq.err = err
 					return nil, err
 				}
-				rows2 = describeRows(res2.Elem())
 			}
-			lq.rows, lq.rows2 = describeRows(res.Elem()), rows2
+			lq.rows, lq.rows2 = rows, rows2
 			return nil, nil
 		}, 0, false)
 		lives = append(lives, lq)
 	}
-	fresh := func(f sqlgen.Filter) ([]string, error) {
-		res := reflect.New(reflect.SliceOf(reflect.PtrTo(typ)))
-		if err := db.Query(ctx, res.Interface(), f, nil); err != nil {
-			return nil, err
-		}
-		return describeRows(res.Elem()), nil
+	freshAs := func(lq *liveQuery, f sqlgen.Filter) ([]string, error) {
+		return runQ(ctx, db, w.table, lq.entry, lq.optKind, f)
 	}
 	defer func() {
 		for _, lq := range lives {
@@ -405,7 +461,7 @@ func check(w world) (nt bool, labels []string, sig string, err error) {
 		m := map[*liveQuery]string{}
 		for _, lq := range lives {
 			if !lq.stopped {
-				r, _ := fresh(lq.filter)
+				r, _ := freshAs(lq, lq.filter)
 				m[lq] = strings.Join(r, "|")
 			}
 		}
@@ -497,7 +553,7 @@ func check(w world) (nt bool, labels []string, sig string, err error) {
 			if lq.stopped {
 				continue
 			}
-			want, err := fresh(lq.filter)
+			want, err := freshAs(lq, lq.filter)
 			if err != nil {
 				return false, nil, "harness", fmt.Errorf("harness: fresh query failed: %v", err)
 			}
@@ -514,7 +570,7 @@ func check(w world) (nt bool, labels []string, sig string, err error) {
 				lastErr = fmt.Errorf("live query %d %s (ran %d times) holds\n  %v\nbut the database now returns\n  %v", i, lq.descr, runs, got, want)
 			}
 			if lq.filter2 != nil && qerr == nil {
-				want2, err := fresh(lq.filter2)
+				want2, err := freshAs(lq, lq.filter2)
 				if err != nil {
 					return false, nil, "harness", fmt.Errorf("harness: fresh query failed: %v", err)
 				}
